@@ -6,5 +6,6 @@ import (
 	_ "verif/harness/c13"
 	_ "verif/harness/c14"
 	_ "verif/harness/c17"
+	_ "verif/harness/c19"
 	_ "verif/harness/c20"
 )
